@@ -31,11 +31,13 @@ pub fn vx_chunk_clone(c: &Chunk) -> (r: Chunk)
 // Abstraction: a chunk denotes bytes[start..end]; a message denotes the
 // concatenation of its chunks.
 // ---------------------------------------------------------------------------
+//@ opaque-when-imported
 pub open spec fn flat(cs: Seq<Chunk>) -> Seq<u8>
     decreases cs.len()
 {
     if cs.len() == 0 { Seq::empty() } else { cs[0].view() + flat(cs.subrange(1, cs.len() as int)) }
 }
+//@ opaque-when-imported
 pub open spec fn all_wf(cs: Seq<Chunk>) -> bool { forall|i: int| 0 <= i < cs.len() ==> (#[trigger] cs[i]).wf() }
 
 pub proof fn lemma_flat_cons(c: Chunk, cs: Seq<Chunk>)
